@@ -488,6 +488,12 @@ func runC06(c *core.Ctx) error {
 	checkCursorLoopsAcceptTrailingEmpty(c, r7, prog7)
 	deepFreeFormOK := checkHasParamDeepObject(c, r7, prog7)
 	checkFreshVisitedSets(c, r7, prog7, pkgGen)
+	if progM, err := c.Program("./gen", "./openapi/parser"); err != nil {
+		r7.Undecided("load:memo", "-", trimPosMsg(err.Error(), 300))
+	} else {
+		// a long-lived table that lets the admission checks skip work answers for every input the work reads
+		checkSkipMemoKeyCoversInputs(c, r7, progM, skipMemoReviewed, pkgParser, pkgGen)
+	}
 	ex7, err := c.Expand(fixtureNames(c))
 	if err != nil {
 		r7.Undecided("expand", "-", trimPosMsg(err.Error(), 400))
